@@ -2,7 +2,8 @@
 //! Drives the real `rustrtc::rtp`, `rustrtc::rtx` and the NACK helpers of `peer_connection`, writes
 //! one case per line for the Lean model (`RtcModel.C15*`), and evaluates the property's own oracles
 //! on the implementation: round trips, semantic stability, framing integrity, extension get/set laws,
-//! NACK set preservation, RTX restore — plus agreement with the webrtc-rs `rtp` / `rtcp` crates.
+//! NACK set preservation, RTX restore (hook, SDP path, run loop), RFC field offsets in both directions, RTCP padding
+//! transparency — plus agreement with the webrtc-rs `rtp` / `rtcp` crates.
 pub mod gens;
 pub mod nackh;
 pub mod refc;
@@ -1203,6 +1204,6 @@ pub fn run(args: &Args) {
     nackh::generate(&mut run, &mut rng, scale, &mut |run, case| emit(run, case, true));
 
     run.notes.insert("scope".into(), serde_json::json!(
-        "streams: rtp_marshal/rtp_parse(+reference bytes)/ext_get/ext_set/rtcp_marshal/rtcp_parse(+reference bytes)/utf8/rtx_wrap/rtx_unwrap/nackbuf/gap; NACK window subsets exhaustive"));
+        "streams: rtp_marshal(+marshal_into)/rtp_parse(+reference bytes)/ext_get/ext_set/rtcp_marshal/rtcp_parse(+reference bytes, +RTCP padding)/utf8/rtx_wrap/rtx_unwrap/rtx_rx/rtx_sdp/rtx_loop/apt/aptmap/apt_append/is_rtcp/osn/rtx_alloc/nackbuf/gap; NACK window subsets exhaustive"));
     run.finish();
 }
